@@ -157,6 +157,10 @@ theorem loop_exit (c : Cfg) (st st' : StB) (e : EvB) (s : Nat)
     simp only [stepB] at h
     (repeat' split at h) <;> cases h
     exact absurd hloop hleft
+  | extCancel =>
+    simp only [stepB] at h
+    split at h <;> cases h
+    exact absurd hloop hleft
   | hStep j =>
     simp only [stepB] at h
     (repeat' split at h) <;> cases h <;> exact absurd hloop hleft
@@ -498,6 +502,10 @@ theorem pcB_step (c : Cfg) (st st' : StB) (e : EvB) (s : Nat) (hB : InvB c st) (
   | tick d =>
     simp only [stepB] at h
     (repeat' split at h) <;> cases h
+    exact Or.inl ⟨rfl, rfl, rfl, rfl⟩
+  | extCancel =>
+    simp only [stepB] at h
+    split at h <;> cases h
     exact Or.inl ⟨rfl, rfl, rfl, rfl⟩
   | hStep j =>
     simp only [stepB] at h
@@ -1706,6 +1714,100 @@ example : asIsCfg.wf = true ∧
     (acceptBAsIs asIsCfg StB.init
         (asIsEvs ++ [.tidyReturn 0 4, .hStep 1, .hEnd 4, .hEnd 2, .hEnd 3, .sdWaitReturn 1 0, .sdWaitReturn 0 4])).map
       (fun st => (st.pcB 0, (List.range 5).map st.hcalls)) = some (.over, [0, 1, 1, 1, 1]) := by
+  decide
+
+/-! ### non-vacuity: the top-level run cancelled from outside
+
+  Top-level scheduler `0` with jobs `1` (long; its cancellation takes time) and `2`.  While `0` waits in its main loop
+  somebody outside calls `cancel()` on the task running `0.co_run()` (`extCancel`): nothing else changes, but time may
+  not pass and the main wait may not return before the `CancelledError` is delivered (`cancelArrive 0`, now possible
+  for the top-level scheduler): the wrapper `co_run()` calls `cancel()` on `1` and `2` and waits for them; `2`
+  acknowledges at once, `1` two units of time later; then the shutdown broadcast, every job is shut down exactly once,
+  and the top-level task ends cancelled — whether `0` is a `PureScheduler` or a critical `Scheduler`. -/
+
+def extCfg : Cfg :=
+  { n := 3, parent := fun _ => 0, isSched := fun j => j = 0, req := fun _ => [],
+    critical := fun _ => false, forever := fun _ => false, window := fun _ => 0,
+    timeout := fun _ => none, sdTimeout := fun _ => none, topPure := true }
+
+def extEvs : List EvB :=
+  [.runBegin, .grant 1, .grant 2, .tick 1, .extCancel, .cancelArrive 0, .cancelAck 2, .tick 2, .cancelAck 1,
+   .tidyReturn 0 0, .hEnd 1, .hEnd 2, .sdWaitReturn 0 0]
+
+example : extCfg.wf = true ∧
+    -- the request: only `creq 0` changes; the run is still in its loop, nothing is cancelled yet
+    (acceptB extCfg StB.init (extEvs.take 5)).map
+      (fun st => (st.pcB 0, st.a.ph 0, st.a.creq 0, st.carrived 0, st.a.creq 1, st.a.creq 2)) =
+      some (.loop, .running, true, false, false, false) ∧
+    -- its delivery is urgent: time may not pass, and it comes before anything else the run would do
+    (acceptB extCfg StB.init (extEvs.take 5)).map (fun st => quietB extCfg st) = some false ∧
+    (acceptB extCfg StB.init (extEvs.take 5 ++ [.tick 1])).isNone = true ∧
+    (acceptB extCfg StB.init (extEvs.take 4 ++ [.bodyEnd 2 true, .extCancel, .waitReturn 0])).isNone = true := by
+  decide
+
+example :
+    -- at most one request; none before `run()` begins
+    (acceptB extCfg StB.init (extEvs.take 5 ++ [.extCancel])).isNone = true ∧
+    (acceptB extCfg StB.init (extEvs.take 6 ++ [.extCancel])).isNone = true ∧
+    (acceptB extCfg StB.init [.extCancel]).isNone = true ∧
+    -- the delivery: the run leaves its loop for reason `cancelled`, `cancel()` is called on `1` and `2`
+    (acceptB extCfg StB.init (extEvs.take 6)).map
+      (fun st => (st.pcB 0, st.carrived 0, st.a.creq 1, st.a.creq 2, st.a.ph 1, st.a.ph 2)) =
+      some (.tidy .cancelled, true, true, true, .running, .running) := by
+  decide
+
+example :
+    -- the clean-up waits for `1` (the clock advances meanwhile)
+    (acceptB extCfg StB.init (extEvs.take 8 ++ [.tidyReturn 0 0])).isNone = true ∧
+    -- then the shutdown broadcast
+    (acceptB extCfg StB.init (extEvs.take 10)).map
+      (fun st => (st.pcB 0, st.a.ph 1, st.a.ph 2, st.hph 1, st.hph 2, st.a.now)) =
+      some (.shut .cancelled, .cancelled, .cancelled, .hactive, .hactive, 3) := by
+  decide
+
+example :
+    -- the end: the top-level task ends cancelled, every job was shut down exactly once, no diagnosis
+    (acceptB extCfg StB.init extEvs).map (fun st => (st.pcB 0, st.a.ph 0, st.a.creq 0, st.hph 1, st.hph 2)) =
+      some (.over, .cancelled, false, .hdone, .hdone) ∧
+    (acceptB extCfg StB.init extEvs).map (fun st => (List.range 3).map st.hcalls) = some [0, 1, 1] ∧
+    (acceptB extCfg StB.init extEvs).map (fun st => (st.failT 0, st.failC 0, st.sdValue 0)) =
+      some (false, false, some true) ∧
+    -- … and after that nobody can cancel it any more
+    (acceptB extCfg StB.init (extEvs ++ [.extCancel])).isNone = true := by
+  decide
+
+/-- the same with a critical `Scheduler` at the top: it ends cancelled too (no conversion of the verdict) -/
+example :
+    (acceptB { extCfg with topPure := false, critical := fun j => j = 0 } StB.init extEvs).map
+      (fun st => (st.pcB 0, st.a.ph 0, (List.range 3).map st.hcalls)) = some (.over, .cancelled, [0, 1, 1]) := by
+  decide
+
+/-- the `extCancel` comes while `0` is already in its shutdown phase, after a normal end (both jobs done, reason
+    `success`, handler of `2` done, handler of `1` still pending): the `CancelledError` is raised out of the wait of
+    `co_shutdown()`, which cancels the pending handler, waits for it, and re-raises: the run that had succeeded ends
+    cancelled (not `True`), `co_shutdown()` did not return `True`; every job was shut down exactly once -/
+def extSdEvs : List EvB :=
+  [.runBegin, .grant 1, .grant 2, .tick 1, .bodyEnd 1 true, .bodyEnd 2 true, .waitReturn 0, .react 0, .tidyReturn 0 0,
+   .hEnd 2, .tick 1, .extCancel, .cancelArrive 0, .hCancelAck 1, .sdTidyReturn 0 0]
+
+example :
+    (acceptB extCfg StB.init (extSdEvs.take 11)).map (fun st => (st.pcB 0, st.bc 0, st.hph 1, st.hph 2)) =
+      some (.shut .success, .bwait .inline, .hactive, .hdone) ∧
+    -- the request, then its delivery (urgent): the pending handler is cancelled
+    (acceptB extCfg StB.init (extSdEvs.take 12 ++ [.tick 1])).isNone = true ∧
+    (acceptB extCfg StB.init (extSdEvs.take 12 ++ [.hEnd 1, .sdWaitReturn 0 0])).isNone = true ∧
+    (acceptB extCfg StB.init (extSdEvs.take 13)).map (fun st => (st.pcB 0, st.bc 0, st.hcreq 1, st.hcreq 2)) =
+      some (.shutTidy .cancelled, .btidy .inline, true, false) := by
+  decide
+
+example :
+    -- the end
+    (acceptB extCfg StB.init extSdEvs).map (fun st => (st.pcB 0, st.a.ph 0, st.a.ph 1, st.a.ph 2)) =
+      some (.over, .cancelled, .done .retOwn, .done .retOwn) ∧
+    (acceptB extCfg StB.init extSdEvs).map (fun st => (st.hph 1, st.hph 2)) = some (.hcancelled, .hdone) ∧
+    (acceptB extCfg StB.init extSdEvs).map (fun st => (List.range 3).map st.hcalls) = some [0, 1, 1] ∧
+    (acceptB extCfg StB.init extSdEvs).map (fun st => (st.failT 0, st.failC 0, st.sdValue 0, st.a.now)) =
+      some (false, false, some false, 2) := by
   decide
 
 end AJ.Proofs.ExitB
